@@ -25,8 +25,12 @@ What is read (comments stripped, the source tokenised: words, string literals, e
 Sections `layerLoad` (pairs in `fn load_impl` of layer.rs), `layerSave` (`fn save_with_options`), `nameTable` (pairs in
 names.rs), `inventory` (pairs anywhere else, one-sided items, API words).  A section whose anchor is not found (function
 or file gone, no pair inside, collection type not resolvable) uses its pinned copy in tools/pinned/ParSites.lean and the
-result says `extraction: pinned`; when an anchor section is pinned the inventory is pinned too (a refactor is never an
-alarm).  The translator is trusted in one direction only: a wrong extraction can make a `source_*` theorem of
+result says `extraction: pinned`; when an anchor section of layer.rs is pinned the inventory is pinned too (a refactor is
+never an alarm).  The two iteration sites and the inventory are STRICT (whatever is found is emitted).  The representation
+pairs of names.rs are SOFT: a pair whose shape is not one of the recognised ones (for `get`: the plain form, and the
+double-checked form that looks the name up again under the write lock) falls back to the pinned section, unless it carries
+content words (`static`, `OnceLock`, `HashMap`, `u64`, `Hasher`, ...: a table that outlives its `NameList` or is not keyed by
+the name) — those are emitted and fail.  The translator is trusted in one direction only: a wrong extraction can make a `source_*` theorem of
 Norad/Props/C19.lean fail or fall back, it cannot make a false one check.
 """
 import os
@@ -295,6 +299,61 @@ def site_details(src, par, seq):
     return d
 
 
+# ---------------------------------------------------------------- name table: recognised shapes (fallback decision only)
+# Mirrors ParSource.norm / ParSource.shape of lean/Norad/Spec/ParSource.lean.  It decides ONLY whether the section is emitted or
+# falls back to its pinned copy; the theorems are proved by Lean on what is emitted, so a drift between the two copies can
+# cause a needless fallback or a failing theorem, never a false theorem.
+
+REWRITES = [([".", "read", "(", ")", ".", "unwrap", "(", ")"], [".", "borrow", "(", ")"]),
+            ([".", "write", "(", ")", ".", "unwrap", "(", ")"], [".", "borrow_mut", "(", ")"]),
+            (["std", ":", ":", "sync", ":", ":", "RwLock"], ["std", ":", ":", "cell", ":", ":", "Cell"]),
+            (["std", ":", ":", "cell", ":", ":", "RefCell"], ["std", ":", ":", "cell", ":", ":", "Cell"]),
+            ([".", "par_bridge", "(", ")"], []),
+            (["let", "mut"], ["let"])]
+TOK1 = {"par_iter": "iter", "into_par_iter": "into_iter", "par_iter_mut": "iter_mut", "ParNameList": "NameListImpl",
+        "SeqNameList": "NameListImpl", "RwLock": "Cell", "RefCell": "Cell"}
+TABLE_WORDS = ["borrow", "borrow_mut", "get", "contains", "cloned", "clone", "match", "Some", "None", "insert", "replace",
+               "get_or_insert_with", "get_or_insert", "entry", "or_insert", "or_insert_with", "remove", "take", "retain", "clear",
+               "iter", "next", "find", "first", "last", "static", "OnceLock", "hash", "Hasher", "unwrap_or", "if", "else", "return"]
+SHAPE_PLAIN = ["get", "borrow", "get", "cloned", "match", "Some", "None", "borrow_mut", "insert", "clone", "clone",
+               "contains", "borrow", "contains"]
+SHAPE_RECHECK = ["get", "borrow", "get", "cloned", "match", "Some", "None", "borrow_mut", "match", "get", "Some", "clone", "None",
+                 "insert", "clone", "clone", "contains", "borrow", "contains"]
+# words that are CONTENT, not shape: a table that outlives its NameList, or that is keyed by something else than the name
+CONTENT_WORDS = {"static", "OnceLock", "LazyLock", "Lazy", "lazy_static", "thread_local", "HashMap", "BTreeMap", "u64", "u32",
+                 "Hasher", "DefaultHasher", "BuildHasher", "hash", "unsafe"}
+EXPECTED_DEFAULT_IMPL = ["impl", "Default", "for", "ParNameList", "{", "fn", "default", "(", ")", "-", ">", "Self", "{",
+                         "ParNameList", "(", "RwLock", ":", ":", "new", "(", "HashSet", ":", ":", "new", "(", ")", ")", ")", "}", "}"]
+
+
+def py_norm(tk):
+    out, i = [], 0
+    while i < len(tk):
+        for pat, rep in REWRITES:
+            if tk[i:i + len(pat)] == pat:
+                out += rep
+                i += len(pat)
+                break
+        else:
+            out.append(TOK1.get(tk[i], tk[i]))
+            i += 1
+    return out
+
+
+def py_shape(tk):
+    return [t for t in py_norm(tk) if t in TABLE_WORDS]
+
+
+def has_content_words(tk):
+    return any(t in CONTENT_WORDS or t.startswith("Atomic") for t in tk)
+
+
+def table_pair_recognised(par, seq):
+    if par["kind"] == "impl":
+        return py_shape(par["tokens"]) in (SHAPE_PLAIN, SHAPE_RECHECK) and py_shape(seq["tokens"]) == SHAPE_PLAIN
+    return py_norm(par["tokens"]) == py_norm(seq["tokens"])
+
+
 # ---------------------------------------------------------------- Lean output
 
 def lstr(s):
@@ -414,6 +473,12 @@ def generate(repo):
             mine = [(a, b, src) for a, b, src in pairs if a["file"] == fname and (not scope or a["scope"] == scope)]
             if not mine:
                 raise NotFound("no rayon / not-rayon pair in %s %s" % (fname, scope))
+            if fname == "names.rs":
+                # representation pairs: an UNRECOGNISED SHAPE (a refactor, a harmless rewrite of one twin) falls back to the
+                # pinned section; a pair that carries content words (static table, hashed keys ...) is emitted and fails
+                odd = [a for a, b, _ in mine if not table_pair_recognised(a, b)]
+                if odd and not any(has_content_words(a["tokens"] + b["tokens"]) for a, b, _ in mine):
+                    raise NotFound("unrecognised shape of the %s pair `%s` in names.rs" % (odd[0]["kind"], odd[0]["name"]))
             return lean_sites(lean_name, doc, [(a, b, site_details(src, a, b)) for a, b, src in mine])
         return f
 
@@ -421,11 +486,21 @@ def generate(repo):
                                   "the pairs inside `Layer::load_impl` (layer.rs)"))
     section("layerSave", anchored("layer.rs", "save_with_options", "layerSave",
                                   "the pairs inside `Layer::save_with_options` (layer.rs)"))
+    layer_anchor_pinned = list(fell_back)
     section("nameTable", anchored("names.rs", "", "nameTable", "the pairs of names.rs"))
 
     def inventory():
-        if fell_back:
-            raise NotFound("an anchor section is pinned")
+        if layer_anchor_pinned:
+            raise NotFound("an anchor section of layer.rs is pinned")
+        # one-sided items of names.rs follow the policy of the name table: unrecognised shape without content words -> the
+        # known constructor is assumed (reported as a fallback); anything with content words is emitted as it is
+        mine = [x for x in singles if x["file"] == "names.rs"]
+        if [x["tokens"] for x in mine] != [EXPECTED_DEFAULT_IMPL] and not any(has_content_words(x["tokens"]) for x in mine):
+            for x in mine:
+                singles.remove(x)
+            singles.append({"file": "names.rs", "scope": "", "polarity": "par", "tokens": EXPECTED_DEFAULT_IMPL})
+            singles.sort(key=lambda x: x["file"])
+            fell_back.append("inventory: one-sided items of names.rs (unrecognised shape)")
         known = lambda a: (a["file"] == "layer.rs" and a["scope"] in ("load_impl", "save_with_options")) or a["file"] == "names.rs"
         def details(src, a, b):
             # a pair outside the known functions is reported whatever its shape (never a reason to fall back)
